@@ -14,7 +14,7 @@ EZSP = "bellows.ezsp"
 NAMED = "bellows.types.named"
 CAPACITY = re.compile(r"(_TABLE_SIZE|_CACHE_SIZE|MAX_END_DEVICE_CHILDREN|SUPPORTED_NETWORKS)$")
 BUFFER = "CONFIG_PACKET_BUFFER_COUNT"
-VERSIONS = list(range(4, 15))
+from ..su import VERSIONS  # noqa: E402  (shared list, filled from EZSP._BY_VERSION)
 
 
 def schema_of(ctx, v):
@@ -266,7 +266,7 @@ def r16_2(ctx):
     rejects = [k[1] for k, val in table.items() if val.value != 0]
     rejects += [repo.cls(NAMED, "EzspStatus").members()["ERROR_VERSION_NOT_SET"], repo.cls(NAMED, "sl_Status").members()["FAIL"],
                 repo.cls(NAMED, "sl_Status").members()["NO_MORE_RESOURCE"], repo.cls(NAMED, "sl_Status").members()["INVALID_PARAMETER"]]
-    for v in (4, 8, 14):
+    for v in (VERSIONS[0], 8, VERSIONS[-1]):
         f, p, base_sets = run_write_config(ctx, v, {}, cur_factory("below"), True)
         for rj in rejects:
             f, p, sets = run_write_config(ctx, v, {}, cur_factory("below"), False, reject=rj)
@@ -285,7 +285,7 @@ def r16_8(ctx):
     repo = ctx.repo
     latest = max(VERSIONS)
     f0, p0, sets0 = run_write_config(ctx, latest, {}, cur_factory("below"))
-    for v in (15, 16, 255):
+    for v in (latest + 1, latest + 2, 255):
         try:
             f, p, sets = run_write_config(ctx, v, {}, cur_factory("below"), proto_v=latest)
         except AnalysisError as ex:
